@@ -436,6 +436,9 @@ func verifyAndFillConfig(cfg *ResponseConfig, nowMS int) error {
 			return fmt.Errorf("timeShiftBufferDepth %ds is not less than %ds", tsbd, MAX_TIME_SHIFT_BUFFER_DEPTH_S)
 		}
 	}
+	if cfg.PeriodsPerHour != nil && (*cfg.PeriodsPerHour < 1 || *cfg.PeriodsPerHour > 3600) {
+		return fmt.Errorf("periods per hour must be in the range 1 to 3600")
+	}
 	if cfg.ContMultiPeriodFlag && cfg.PeriodsPerHour == nil {
 		return fmt.Errorf("period continuity set, but not multiple periods per hour")
 	}
